@@ -494,6 +494,8 @@ pub fn run(tier: Tier) -> i32 {
             r##"<svg><var a="0"/><loop count="2" loop-var="i"><rect id="z$i" wh="3"/><var a="{{$a + #z$i~w}}"/></loop><text text="[$a]"/></svg>"##),
         ("retried-assignment-read-after-container/later-assignment-wins", r##"<svg><var a="{{#z~w}}"/><var a="9"/><rect id="z" wh="3"/><text text="[$a]"/></svg>"##,
             r##"<svg><rect id="z" wh="3"/><var a="{{#z~w}}"/><var a="9"/><text text="[$a]"/></svg>"##),
+        ("reuse-of-previous-container-as-written", r##"<svg><var v="1"/><a id="a1" data-w="$v"><text text="[$v]"/></a><reuse href="^" v="5"/><text text="[$v]"/></svg>"##,
+            r##"<svg><var v="1"/><a id="a1" data-w="$v"><text text="[$v]"/></a><reuse href="#a1" v="5"/><text text="[$v]"/></svg>"##),
         ("retry-consumes-random-draws-toplevel", r##"<svg><rect xy="#z|h" wh="{{randint(1,9)}}"/><rect id="z" wh="3"/><var r="{{randint(1,1000)}}"/><text text="[$r]"/></svg>"##,
             r##"<svg><rect id="z" wh="3"/><rect xy="#z|h" wh="{{randint(1,9)}}"/><var r="{{randint(1,1000)}}"/><text text="[$r]"/></svg>"##),
     ];
